@@ -414,3 +414,36 @@ Theorem C08_concrete_header_example :
   wf_file (print_hdr_c 55) 1 2 m (repeat 7 96).
 Proof. exact ex_hdr_roundtrip. Qed.
 Print Assumptions C08_concrete_header_example.
+
+(* ==== unreachable / unauthorised stores under a data set ====
+   a low-level failure on ANY chunk inside the window that the store's (translated) error map turns into a
+   StoreUnavailable fails the load with it: not zero-filled, not flagged.  For the S3 store these are exactly the
+   listed classes (connection, timeout, TLS, proxy, HTTP-status errors, 401/403 = AuthorisationFailed, InvalidToken). *)
+Theorem C08_unavailable_store_fails_load : forall ds a id e,
+  In (a, id) (needed ds) -> d_low ds a id = LRaise e ->
+  isinst (standard_errors (error_map (d_store ds)) e) K_StoreUnavailable = true ->
+  In (standard_errors (error_map (d_store ds)) e) (load_errors ds) /\ load_errors ds <> [] /\
+  chunk_missing ds a id = false.
+Proof. exact unavailable_fails_load. Qed.
+Print Assumptions C08_unavailable_store_fails_load.
+
+Theorem C08_s3_error_classes :
+  classes_mapped_to SS3 K_StoreUnavailable =
+    [K_StoreUnavailable; K_AuthorisationFailed; K_InvalidToken; R_RequestException; R_ChunkedEncodingError;
+     R_ConnectionError; R_Timeout; R_ConnectTimeout; R_ContentDecodingError; R_HTTPError; R_InvalidHeader;
+     R_InvalidJSONError; R_InvalidURL; R_InvalidProxyURL; R_InvalidSchema; R_JSONDecodeError; R_MissingSchema;
+     R_ProxyError; R_SSLError; R_StreamConsumedError; R_TooManyRedirects; R_URLRequired; R_UnrewindableBodyError] /\
+  classes_mapped_to SS3 K_ChunkNotFound =
+    [K_ChunkNotFound; K_S3ObjectNotFound; K_S3ServerGlitch; R_ReadTimeout; R_RetryError; U_MaxRetryError] /\
+  classes_mapped_to SDict K_ChunkNotFound = [B_KeyError; B_IndexError; K_ChunkNotFound; K_S3ObjectNotFound; K_S3ServerGlitch].
+Proof. exact s3_classes. Qed.
+Print Assumptions C08_s3_error_classes.
+
+(* open finding C08-F5c, as a theorem about the faithful model: the NPY store's read path maps nothing to
+   StoreUnavailable and absorbs a PermissionError as a missing chunk (filler for flags and for the other arrays) *)
+Theorem C08_npy_read_unavailable_refuted :
+  classes_mapped_to SNpy K_StoreUnavailable = [] /\
+  exists e, isinst e B_OSError = true /\ e <> B_FileNotFoundError /\
+            vfw_getter AOther SNpy (LRaise e) = Ret Placeholder /\ vfw_getter AFlags SNpy (LRaise e) = Ret DefaultFill.
+Proof. exact npy_read_unavailable_refuted. Qed.
+Print Assumptions C08_npy_read_unavailable_refuted.
